@@ -23,6 +23,9 @@ EXTRA = [
     ("matrix3", row(mo("["), el("mtable", *[el("mtr", *[el("mtd", mn(str(3 * r + c))) for c in range(3)]) for r in range(3)]), mo("]"))),
     ("single", mi("z")),
     ("ascii-quotes", row(mn("12"), mo('"'), mo("+"), mtext('"a"'), mo("+"), mi("x"), mo("'"), mo("+"), mn("5"), mo("'"), mn("3"), mo('"'))),
+    # numbers whose text a code rewrites while brailling (Roman numerals, separators of the other convention)
+    ("roman", row(mn("XIV"), mo("+"), mn("iii"), mo("="), mn("XVII"))),
+    ("separators", row(mn("1.234,5"), mo("+"), mn("1,234.5"), mo("+"), mn("12 345"))),
     # an expression that set_mathml accepts but whose braille fails (a table row without cells): queries must stay pure on the error path too
     ("braille-fails", el("mtable", el("mtr", terms.T("mrow")), el("mtr", el("mtd", mi("y"))))),
 ]
@@ -41,7 +44,18 @@ def corpus(tier):
 
 
 CHEAP = [["getpref", "BrailleNavHighlight"], ["navid"]]
-FULL = [["speech"], ["braille", ""], ["overview"]]
+# navmml first (before this snapshot's own braille call): the stored expression as far as the current position shows it - some codes
+# rewrite token text while brailling.  It is compared only between snapshots taken at the same position, with data-* attributes (the
+# library's own memo attributes) removed, so what is compared is what later speech and braille are computed from.
+FULL = [["navmml"], ["speech"], ["braille", ""], ["overview"]]
+NFULL = len(FULL)
+FULL_NAMES = ("stored-mathml", "speech", "braille", "overview")
+
+
+def _stored(x):
+    if x and x[0] == "o":
+        return ["o", re.sub(r"\sdata-[\w-]+='[^']*'", "", str(val(x)[0]))]
+    return x[:1]
 
 
 def build_ops(d, ids):
@@ -144,8 +158,10 @@ def work(item):
         for kind, desc, i, sn, extra in plan:
             if kind in ("base", "rebase"):
                 base_cheap = [x[:2] for x in r[sn[0]:sn[0] + 2]]
-                base_full = [x[:2] for x in r[sn[1]:sn[1] + 3]]
-                plain = val(r[sn[1] + 1]) if is_ok(r[sn[1] + 1]) else None
+                base_full = [x[:2] for x in r[sn[1]:sn[1] + NFULL]]
+                plain = val(r[sn[1] + 2]) if is_ok(r[sn[1] + 2]) else None
+                base_full[0] = _stored(r[sn[1]])
+                base_at = base_cheap[1]
                 continue
             if kind == "nav":
                 continue
@@ -158,7 +174,7 @@ def work(item):
                 continue
             if kind == "final":
                 cheap = [x[:2] for x in r[sn[0]:sn[0] + 2]]
-                full = [x[:2] for x in r[sn[1]:sn[1] + 3]]
+                full = [x[:2] for x in r[sn[1]:sn[1] + NFULL]]
                 if cheap[0] != base_cheap[0]:
                     bad("pref-changed", f"BrailleNavHighlight is {short(cheap[0], 60)} at the end of the history, was {short(base_cheap[0], 60)}")
                 continue
@@ -207,8 +223,9 @@ def work(item):
                 bad("position-moved", f"{desc} moved the navigation position from {short(base_cheap[1], 60)} to {short(cheap[1], 60)}")
                 base_cheap = [base_cheap[0], cheap[1]]
             if sn[1] is not None:
-                full = [y[:2] for y in r[sn[1]:sn[1] + 3]]
-                for nm, a, b_ in zip(("speech", "braille", "overview"), full, base_full):
+                full = [y[:2] for y in r[sn[1]:sn[1] + NFULL]]
+                full[0] = _stored(r[sn[1]]) if cheap[1] == base_at else base_full[0]       # another position shows another part of the expression
+                for nm, a, b_ in zip(FULL_NAMES, full, base_full):
                     if a != b_:
                         bad(f"output-changed|{nm}", f"after {desc} (and the queries before it) {nm} is {short(a, 80)}, was {short(b_, 80)}")
                         base_full = full
@@ -239,8 +256,8 @@ def main(tier):
     corp = corpus(tier)
     run.count("expressions", len(corp))
     jobs = []
-    codes = CODES + (["Vietnam"] if tier == "thorough" else [])
-    switches = [f"{a}>{b_}" for a in codes for b_ in codes if a != b_]
+    codes = CODES + ["Vietnam"]
+    switches = [f"{a}>{b_}" for a in codes for b_ in codes if a != b_ and (tier == "thorough" or "Vietnam" not in (a, b_) or "UEB" in (a, b_))]
     run.count("code_switch_pairs", len(switches))
     for code in codes + switches:
         for style in STYLES:
@@ -268,7 +285,7 @@ def main(tier):
         trans += counts["queries"]
     return run.finish(
         rule=f"expressions: 7 hand-written (quadratic formula, long numbers, capitals, invisible operators, text, 3x3 matrix, single token) + every depth-1 term of G"
-             f"{' + depth-2 terms over a 12-construct core' if tier == 'thorough' else ''}, with author ids on every element; codes {CODES + (['Vietnam'] if tier == 'thorough' else [])} x 4 highlight styles. "
+             f"{' + depth-2 terms over a 12-construct core' if tier == 'thorough' else ''}, with author ids on every element; codes {CODES + ['Vietnam']} x 4 highlight styles. "
              f"One history per (expression, code, style): get_braille for each of the first 10 ids, an unknown id and ''; node_from_braille for cells 0..{NCELL - 1}, 200, 9999 and usize::MAX; "
              "set_navigation_node + get_braille_position + get_braille for each id; and after each of 6 navigation commands position / routing / highlight queries again. "
              "The same history again for every ordered pair of codes A>B: warm-up queries under A, switch to B, whole history under B. After every query the "
